@@ -53,6 +53,7 @@ type FuncContract struct {
 	Binds    []Bind
 	Callsite []CallsiteClause
 	Lets     []Clause // function-level definitions evaluated at entry: Label = name
+	MustRead []string // receiver fields the function (transitively) must read
 	NoRead   []string // receiver fields the function (transitively) must not read
 	Cache    []string // receiver fields that are memoisation caches (writes ignored by the readonly analysis)
 	Measure  []Expr   // function-level decreases (lexicographic) for recursion
@@ -119,7 +120,7 @@ var (
 )
 
 var clauseKeywords = map[string]bool{"func": true, "spec": true, "lemma": true, "property": true, "ghost": true, "requires": true,
-	"ensures": true, "loop": true, "invariant": true, "decreases": true, "flags": true, "bind": true, "callsite": true, "let": true, "hint": true, "noread": true, "cache": true}
+	"ensures": true, "loop": true, "invariant": true, "decreases": true, "flags": true, "bind": true, "callsite": true, "let": true, "hint": true, "noread": true, "cache": true, "mustread": true}
 
 func parseParams(s string) ([]Param, error) {
 	s = strings.TrimSpace(s)
@@ -361,6 +362,11 @@ func (cs *Contracts) ParseFile(path, pkgName string) error {
 				return err
 			}
 			curLoop.Decreases = &c
+		case "mustread":
+			if curF == nil {
+				return fail(l, "mustread outside func")
+			}
+			curF.MustRead = append(curF.MustRead, strings.FieldsFunc(rest, func(r rune) bool { return r == ',' || r == ' ' })...)
 		case "noread", "cache":
 			if curF == nil {
 				return fail(l, "%s outside func", kw)
